@@ -770,6 +770,13 @@ func comparedWithConst(v ssa.Value) bool {
 				if _, isC := bo.Y.(*ssa.Const); isC && bo.X == v {
 					return true
 				}
+			case token.ADD, token.SUB:
+				// the counter is stepped first and the stepped value is what is compared (i++; if i >= max …)
+				if _, isC := bo.Y.(*ssa.Const); isC && bo.X == v {
+					if _, isPhi := v.(*ssa.Phi); isPhi && comparedWithConst(bo) {
+						return true
+					}
+				}
 			}
 		}
 	}
